@@ -10,20 +10,25 @@ CHECKS = {
         "Bulk get/set and arguments follow the preconditions in-tree callers satisfy (byte alignment, in-range). Histories are sampled (seeded), the model is exhaustive only at small range.",
    technique="TLA+ refinement model checking (TLC) + trace validation of real-library histories against the same spec"),
  "C07": dict(level="model_checking",
-   text="TLC evaluates Geometry.tla (transcription of ext2fs_initialize's geometry arithmetic, retry loops and ext2fs_bg_has_super) over a lattice of ~12k configurations and checks the "
-        "arithmetic invariants; the real mke2fs is then run on a universe of option combinations and boundary sizes and every run is a trace line validated by TLC (Trace_Geometry): an accepted "
-        "configuration must have exactly the geometry Geometry!Compute predicts (read back by an independent superblock parser), backups exactly at BgHasSuper, the requested features, "
-        "e2fsck -fn = 0, Consistent by the independent reader, no device write under -n (syscall recorder) and byte-identical output on a second run.",
-   note="Trusted: TLC, lib/sbparse.py (independent superblock parser), reader/ext4read.py + Ext4Abs.Consistent when present, iotrace.so. bigalloc geometry arithmetic is not modelled "
-        "(those configurations get the consistency, -n and reproducibility clauses only). Journal size/location, RAID and offset options are not varied yet. Universe is sampled in quick, enumerated in thorough.",
+   text="TLC evaluates Geometry.tla (transcription of ext2fs_initialize's geometry arithmetic with its retry loop in closed form, ext2fs_bg_has_super, the sparse_super2 backup slots as mke2fs fills them, "
+        "-E resize=, the resize inode's double-indirect map and per-block backup lists, and single-field option families) over a lattice of 23 532 configurations and checks the arithmetic invariants; "
+        "the real mke2fs is then run on a universe built from the catalogue TLC writes (option combinations, boundary sizes, 24 sparse_super2 cells, -G / -m / RAID / quotatype / -T / -J / -E families incl. "
+        "rejects) and every run is a trace line validated by TLC (Trace_Geometry): an accepted configuration must have exactly the geometry Geometry!Compute predicts (read back by an independent parser, "
+        "incl. s_backup_bgs and the raw resize-inode map), backups exactly at BgHasSuper with valid checksums, the requested features and fields, e2fsck -fn = 0, Consistent by the independent reader, no "
+        "device write under -n (syscall recorder) and byte-identical output on a second run under a shifted clock.",
+   note="Trusted: TLC, lib/sbparse.py (independent superblock parser), reader/ext4read.py + Ext4Abs.Consistent, iotrace.so. bigalloc geometry arithmetic and the layout effect of -J location= / "
+        "packed_meta_blocks are not predicted by the spec (those configurations get the consistency, -n and reproducibility clauses only). Universe is sampled in quick (catalogue cells always), enumerated in thorough.",
    technique="TLA+ spec of the geometry arithmetic model-checked with TLC + trace validation of real mke2fs runs against it"),
  "C08": dict(level="model_checking",
-   text="Crash clause: ResizeCrash.tla models the device (durable state + writes pending until fsync, any subset lost at a crash) and states CrashInvariant (a visible modification outside the primary "
-        "superblock implies the error flag in every crash image); every real resize2fs run (14 profiles x grow/shrink/-M targets) is recorded at system-call level, classified against a shadow image "
-        "and validated by TLC with the invariant evaluated on every prefix; thorough rebuilds sampled crash images and runs the real e2fsck -p on them. Main clause (Tree/Consistent/size) is "
-        "evaluated through the independent reader when present.",
-   note="Trusted: TLC, iotrace.so recorder (checked per run: replaying the recorded payloads must reproduce the final image), the classification rule (bytes beyond the old filesystem end are not "
-        "part of the filesystem; superblock-internal writes other than s_state are not modifications). 32/64-bit conversion (-b/-s) not exercised yet.",
+   text="Resize.tla / ResizeOps.tla model resize2fs in the shape of the code over an abstract filesystem (groups with BLOCK_UNINIT, backups, occupancy classes, inode tables): the blocks_to_move scan incl. the "
+        "BLOCK_UNINIT skip, inode_scan_and_fix (start_to_move, renumbering), move_itables and fix_resize_inode as the device program of a run executed through ResizeCrash.tla (durable state + writes "
+        "pending until fsync, any subset lost at a crash); TLC checks NoBlockLost, InodesBijective, CrashInvariant (a visible modification outside the primary superblock implies the error flag in every "
+        "crash image), EndsClean on every shape of up to 4 groups x every target, with three literal faulty variants that must fail. TLC enumerates a boundary catalogue of 12 starting shapes x requests; "
+        "the check BUILDS each (mke2fs + debugfs), a TLC guard confirms through the independent reader that the image has the shape, then every real resize2fs run (catalogue + 14 profiles x "
+        "grow/shrink/-M/-b/-s targets) is recorded at system-call level and validated by TLC with the invariant on every prefix; the main clause (Consistent and TreeEq through the reader, e2fsck -fn, "
+        "reported size, refused => unchanged) is evaluated by TLC on every run; thorough rebuilds crash images and runs the real e2fsck -p on them.",
+   note="Trusted: TLC, iotrace.so recorder (checked per run: replaying the recorded payloads must reproduce the final image), the classification rule (bytes beyond the end of the filesystem the superblock "
+        "describes are not part of it; superblock-internal writes other than s_state are not modifications), the reader. Inode-table moves are specified exactly for the non-flex layout only.",
    technique="TLA+ device/crash model checked with TLC + trace validation of recorded resize2fs write streams; fault enumeration of crash images on the real e2fsck"),
  "C14": dict(level="other",
    text="Partially decided by the specification (DESIGN.md section 6). (c) The CRC primitives are written in TLA+ as their bit-serial definitions (Crc.tla) and TLC compares the real library's results "
